@@ -292,6 +292,9 @@ def check_case(ctx, case):
         ctx.count('text_entry_rule_objects_not_counted')
     if kind == 'ring':
         ctx.count('ring_text_rule_networks')
+    if not names or not seeds:
+        ctx.count('degenerate_networks (no rule / no seed)')
+        ctx.nontrivial([seeds, kind, names])
     if len(ref) >= 3:
         ctx.nontrivial([seeds, kind, names])
         ctx.klass('closure of %s species' % ('3-9' if len(ref) < 10 else
@@ -321,6 +324,16 @@ def cases(ctx):
                     entry = 'text'
                 out.append({'seeds': ss, 'kind': kind, 'rules': rs,
                             'entry': entry})
+    # degenerate sizes: no rule at all (the closure is the seed set), no seed
+    for ss in seedsets[:12]:
+        out.append({'seeds': ss, 'kind': 'smarts', 'rules': [],
+                    'entry': 'objects'})
+        out.append({'seeds': ss, 'kind': 'ring', 'rules': [],
+                    'entry': 'text'})
+    for kind, pool in (('smarts', list(SMARTS_RULES)),
+                       ('ring', list(RING_RULES))):
+        out.append({'seeds': [], 'kind': kind, 'rules': pool[:2],
+                    'entry': 'text'})
     return out
 
 
@@ -329,7 +342,8 @@ def run_shard(ctx):
     r = ctx.sub_rng('c17')
     r.shuffle(allc)
     if ctx.tier == 'quick':
-        allc = allc[:2000]
+        allc = [c for c in allc if not c['rules'] or not c['seeds']] + \
+            [c for c in allc if c['rules'] and c['seeds']][:2000]
     for i, c in enumerate(allc):
         if ctx.mine(i):
             check_case(ctx, c)
